@@ -2,7 +2,7 @@
 
 E1 bounded-exhaustive enumeration on the real Reaction / RDNetwork:
 
-  eq*      equation texts (three spacing styles) -> per-species vectors, orders, k dimensions, print-parse
+  eq*      equation texts (four spacing styles) -> per-species vectors, orders, k dimensions, print-parse
            fix-point, split sides; oracle = independent scanner mc/ref/reaction.py (and, redundantly, the
            term list the text was printed from)
   kbare    bare numbers, orders 0..8 x 0..8, 36 unit systems        -> exactly the units of the system
@@ -1230,27 +1230,27 @@ def _spaces(tier):
     styles = list(R.STYLES)
     # -- equations
     if thorough:
-        sp.append(Space("eq2: <=2 terms/side over {A,B,C} x coefficients {none,0,1,2,3,9}: all 343x343 equations x 3 spacing styles",
+        sp.append(Space("eq2: <=2 terms/side over {A,B,C} x coefficients {none,0,1,2,3,9}: all 343x343 equations x 4 spacing styles",
                         "eq", [("left", S2), ("right", S2), ("style", styles)], build=_eq_build))
-        sp.append(Space("eq4: <=4 terms/side over {A,B} x {none,2}: all 341x341 equations x 3 spacing styles",
+        sp.append(Space("eq4: <=4 terms/side over {A,B} x {none,2}: all 341x341 equations x 4 spacing styles",
                         "eq", [("left", S4), ("right", S4), ("style", styles)], build=_eq_build))
-        sp.append(Space("equ: unusual labels %s: every side with <=2 terms x {none,2} (601) against every side with <=1 term (25), on either side, x 3 spacing styles"
+        sp.append(Space("equ: unusual labels %s: every side with <=2 terms x {none,2} (601) against every side with <=1 term (25), on either side, x 4 spacing styles"
                         % ULABELS, "eq", [("side", SU2), ("probe", SU1), ("orient", [0, 1]), ("style", styles)],
                         build=_eq_probe_build))
     else:
         sp.append(Space("eq2/quick: <=2 terms/side over {A,B,C} x coefficients {none,0,2,9}: all 157x157 equations, single blanks",
                         "eq", [("left", S2Q), ("right", S2Q), ("style", ["single"])], build=_eq_build))
-        sp.append(Space("eq2/quick: each of the 343 sides (coefficients {none,0,1,2,3,9}) against 5 probe sides, on either side, x 3 spacing styles",
+        sp.append(Space("eq2/quick: each of the 343 sides (coefficients {none,0,1,2,3,9}) against 5 probe sides, on either side, x 4 spacing styles",
                         "eq", [("side", S2), ("probe", PROBES), ("orient", [0, 1]), ("style", styles)],
                         build=_eq_probe_build))
-        sp.append(Space("eq4/quick: <=3 terms/side over {A,B} x {none,2}: all 85x85 equations x 3 spacing styles",
+        sp.append(Space("eq4/quick: <=3 terms/side over {A,B} x {none,2}: all 85x85 equations x 4 spacing styles",
                         "eq", [("left", S3), ("right", S3), ("style", styles)], build=_eq_build))
-        sp.append(Space("eq4/quick: every side with <=4 terms over {A,B} x {none,2} (341) against 5 probe sides, on either side, x 3 spacing styles",
+        sp.append(Space("eq4/quick: every side with <=4 terms over {A,B} x {none,2} (341) against 5 probe sides, on either side, x 4 spacing styles",
                         "eq", [("side", S4), ("probe", PROBES), ("orient", [0, 1]), ("style", styles)],
                         build=_eq_probe_build))
-        sp.append(Space("equ/quick: unusual labels %s: all 25x25 equations with <=1 term/side x {none,2} x 3 spacing styles"
+        sp.append(Space("equ/quick: unusual labels %s: all 25x25 equations with <=1 term/side x {none,2} x 4 spacing styles"
                         % ULABELS, "eq", [("left", SU1), ("right", SU1), ("style", styles)], build=_eq_build))
-        sp.append(Space("equ/quick: every side with <=2 terms over the unusual labels x {none,2} (601) against 3 probe sides, on either side, x 3 spacing styles",
+        sp.append(Space("equ/quick: every side with <=2 terms over the unusual labels x {none,2} (601) against 3 probe sides, on either side, x 4 spacing styles",
                         "eq", [("side", SU2), ("probe", [[], [(None, "α")], [(2, "2B")]]), ("orient", [0, 1]), ("style", styles)],
                         build=_eq_probe_build))
     # -- constants
